@@ -805,6 +805,29 @@ pub fn run(p: &[String]) -> Vec<String> {
             let back = reader::xlsx::read_reader(std::io::Cursor::new(buf), true).unwrap();
             vec![hex(&before), hex(&show(&back))]
         }
+        "comments_roundtrip" => {
+            // "col,row,authorhex,texthex;..." ('-' = empty) : comments of Sheet1 saved and reloaded
+            let spec = unhex(&p[1]);
+            let dec = |h: &str| -> String { if h == "-" { String::new() } else { String::from_utf8((0..h.len()).step_by(2).map(|i| u8::from_str_radix(&h[i..i + 2], 16).unwrap()).collect()).unwrap() } };
+            let mut book = umya_spreadsheet::new_file();
+            {
+                let ws = book.get_sheet_by_name_mut("Sheet1").unwrap();
+                ws.get_cell_mut((1, 1)).set_value_string("x");
+                for item in spec.split(';') {
+                    let f: Vec<&str> = item.split(',').collect();
+                    let mut c = umya_spreadsheet::Comment::default();
+                    c.new_comment((f[0].parse::<u32>().unwrap(), f[1].parse::<u32>().unwrap()));
+                    c.set_author(dec(f[2])); c.set_text_string(dec(f[3]));
+                    ws.add_comments(c);
+                }
+            }
+            let show = |book: &umya_spreadsheet::Spreadsheet| { let mut v: Vec<String> = book.get_sheet_by_name("Sheet1").unwrap().get_comments().iter().map(|c| format!("{}: author {:?} text {:?}", c.get_coordinate().get_coordinate(), c.get_author(), c.get_text().get_text())).collect(); v.sort(); v.join(" | ") };
+            let before = show(&book);
+            let mut buf: Vec<u8> = Vec::new();
+            umya_spreadsheet::writer::xlsx::write_writer(&book, &mut buf).unwrap();
+            let back = umya_spreadsheet::reader::xlsx::read_reader(std::io::Cursor::new(buf), true).unwrap();
+            vec![hex(&before), hex(&show(&back))]
+        }
         // ---- C04
         "attr_generations" => {
             // text : attribute channels (internal hyperlink location, sheet name, table column name) through three save/load generations
